@@ -335,7 +335,51 @@ def potable_case(pname):
   return res
 
 
+def marker_siblings_case():
+  """Concrete layer through Configuration().read(): entries of one [Pair] section that differ only in a range marker
+  (same form, same numbers, same start) - each is selected by its own markers, in either file order."""
+  from atsim.potentials.config import Configuration
+  import logging
+  res = new_result("entries differing only in a range marker (concrete)")
+  entries = [("A-A", "as.constant 1.0 >2 as.polynomial 5.0 0.5", [(">", 0.0, lambda r: 1.0), (">", 2.0, lambda r: 5.0 + 0.5 * r)]),
+             ("B-B", "as.constant 1.0 >=2 as.polynomial 5.0 0.5", [(">", 0.0, lambda r: 1.0), (">=", 2.0, lambda r: 5.0 + 0.5 * r)]),
+             ("C-C", ">=0 as.constant 7.0", [(">=", 0.0, lambda r: 7.0)]),
+             ("D-D", "as.constant 7.0", [(">", 0.0, lambda r: 7.0)]),
+             ("E-E", ">1 as.constant 4.0 >=3 as.constant 5.0", [(">", 1.0, lambda r: 4.0), (">=", 3.0, lambda r: 5.0)]),
+             ("F-F", ">=1 as.constant 4.0 >3 as.constant 5.0", [(">=", 1.0, lambda r: 4.0), (">", 3.0, lambda r: 5.0)])]
+  logging.disable(logging.CRITICAL)
+  try:
+    for order in (entries, entries[::-1], entries[1::2] + entries[0::2]):
+      text = "[Tabulation]\ntarget : LAMMPS\ncutoff : 6.0\nnr : 5\n\n[Pair]\n" + "".join("%s : %s\n" % (k, v) for k, v, _ in order)
+      tab = Configuration().read(io.StringIO(text))
+      pots = {"%s-%s" % (p.speciesA, p.speciesB): p for p in tab.potentials}
+      for k, v, ranges in order:
+        for r in (0.0, 0.5, 1.0, 2.0, 2.5, 3.0, 4.0):
+          best = None
+          for (m, s0, f) in ranges:
+            if (r > s0) if m == ">" else (r >= s0):
+              if best is None or s0 >= best[0]:
+                best = (s0, f)
+          want = best[1](r) if best else 0.0
+          got = pots[k].energy(r)
+          res["paths"] += 1
+          if abs(got - want) > 1e-12:
+            res["violations"].append(dict(key="marker-siblings", desc="%s : %s gives %r at r=%r, its own ranges select %r (file order %s)" % (k, v, got, r, want, [e[0] for e in order]),
+                                          record=dict(kind="marker_siblings", model=text)))
+            if len(res["violations"]) >= 3:
+              return res
+      res["replays"] += 1
+  finally:
+    logging.disable(logging.NOTSET)
+  res["vcs"] += 1
+  res["unsat"] += 0 if res["violations"] else 1
+  res["negatives"] += 1
+  res["negatives_ok"] += 1
+  return res
+
+
 def cases(tier, seed=0):
+  extra_ = [Case("marker siblings", marker_siblings_case)]
   cs = []
   maxn = 3 if tier == "quick" else 4
   for n in range(1, maxn + 1):
@@ -365,7 +409,7 @@ def cases(tier, seed=0):
       cs.append(Case("api n=5 sample%d" % k, api_case, n=5, markers=markers, perm=tuple(perm)))
   for name in POTABLE:
     cs.append(Case("potable %s" % name, potable_case, pname=name))
-  return cs
+  return cs + extra_
 
 
 def replay(path):
